@@ -5,6 +5,7 @@ CONSTANTS
   RPrefixes = {"B"}
   BodyToks = {"d0", "d1", "d4", "d5", "d12", "d99", "dash", "plus", "sp", "us", "comma", "x", "arab"}
   BodyLen = 3
+  ImsFmts = {"imf", "rfc850", "asctime", "nozone"}
   CondRanges = {"r1to4", "bad"}
   MaxReq = 1
 INVARIANT ContentOK
